@@ -4,7 +4,7 @@
     sequences of a net at the level of marking tuples) in proof/C20_Bfs.v. *)
 From Coq Require Import ZArith NArith List Lia.
 Import ListNotations.
-From SK Require Import model.C20_Model proof.C20_Spec proof.C20_Siphon proof.C20_Petri proof.C20_Bfs proof.C20_Build proof.C20_Main proof.C20_Hist.
+From SK Require Import model.C20_Model proof.C20_Spec proof.C20_Siphon proof.C20_Petri proof.C20_Bfs proof.C20_Build proof.C20_Main proof.C20_Hist proof.C20_Analyzer.
 Local Open Scope nat_scope.
 
 (** The index predicate [_is_siphon_indices] is the Petri-net definition: for every network over the
@@ -169,3 +169,42 @@ Theorem C20_history_independence :
   pr_built (fst (pr_step V E st op)) = pr_built (fst (pr_step V E fr op)).
 Proof. exact main_history_independence. Qed.
 Print Assumptions C20_history_independence.
+
+(** PetriAnalyzer kept while the analysed network object is edited ([last_net], [computed_for] are defined in
+    proof/C20_Analyzer.v: the network the analyzer refers to after a list of calls, and the network as it was at the last
+    successful compute_siphons_traps()).  After ANY history of compute / read / edit calls the stored siphons and traps
+    are exactly find_siphons / find_traps of the network AT THE LAST SUCCESSFUL COMPUTE (nothing before the first one) —
+    with [C20_find_siphons] / [C20_find_traps]: exactly its minimal siphons / traps; a compute never keeps or returns an
+    earlier result. *)
+Theorem C20_analyzer_no_stale :
+  forall (k : option nat) (net0 : network) (ops : list an_op),
+  let st := an_exec k (AN net0 None None) ops in
+  an_net st = last_net net0 ops /\
+  match computed_for net0 None ops with
+  | None => an_siphons st = None /\ an_traps st = None
+  | Some net => an_siphons st = find_siphons (bipartite_of (fst net) (snd net)) k /\
+                an_traps st = find_traps (bipartite_of (fst net) (snd net)) k
+  end.
+Proof. exact main_analyzer_no_stale. Qed.
+Print Assumptions C20_analyzer_no_stale.
+
+(** In particular a compute on a network with species and reactions stores the results of the CURRENT network,
+    whatever the history before it. *)
+Theorem C20_analyzer_compute_current :
+  forall (k : option nat) (net0 : network) (ops : list an_op),
+  let cur := last_net net0 ops in
+  computable cur = true ->
+  let st := an_exec k (AN net0 None None) (ops ++ [AnCompute]) in
+  an_siphons st = find_siphons (bipartite_of (fst cur) (snd cur)) k /\
+  an_traps st = find_traps (bipartite_of (fst cur) (snd cur)) k.
+Proof. exact main_analyzer_compute_current. Qed.
+Print Assumptions C20_analyzer_compute_current.
+
+(** A read at any position of any history ([an_run] is what the correspondence evaluates) returns the stored fields
+    characterised by [C20_analyzer_no_stale]. *)
+Theorem C20_analyzer_read :
+  forall (k : option nat) (st : an_state) (ops1 ops2 : list an_op),
+  nth_error (an_run k st (ops1 ++ AnRead :: ops2)) (length ops1) =
+  Some (AnSets (an_siphons (an_exec k st ops1)) (an_traps (an_exec k st ops1))).
+Proof. exact main_analyzer_read. Qed.
+Print Assumptions C20_analyzer_read.
